@@ -364,7 +364,9 @@ CLAIMED = {
         "sessions on both backends with colliding connection ids, pushes compared with 'once per open matching "
         "subscription' from a reference registry and matcher, and with the machine; live-vs-stored agreement per filter "
         "on both backends incl. a validly NIP-26-delegated event and empty tag values. Two defects of check_event were "
-        "repaired (until/since 0, empty tag value); two SQL stored-side disagreements are known findings.",
+        "repaired (until/since 0, empty tag value); two SQL stored-side disagreements are known findings. Since round 11 "
+        "check_event is translated from the current source on every run, clause by clause, and Lean proves the translation equal "
+        "to the model's liveMatch for every filter list and event (tie_check_event).",
         "Partial: the checks observe the interleavings the event loop produces (settled sessions, query tasks held at "
         "their start, and recorded bursts whose label sequence must be a run of the machine with equal transcripts — "
         "harness/lib/ptrace.py, driver op proto.trace); the others are covered by the theorems, not enumerated against the "
@@ -438,8 +440,10 @@ def main():
         "checks": checks,
         "not_applicable": [{"property_id": pid, "reason": NOT_YET} for pid in ids if pid not in CLAIMED],
         "notes": "Every claimed property: theorem on a hand-written Lean model + correspondence check run on every invocation. "
-                 "Second tie for the LMDB layout (C01 C02 C04 C06-C12 C17): harness/lib/translate.py regenerates the key / record layout "
-                 "from kv.py's source on every run and Lean checks twelve tie theorems against the compiled model (DESIGN.md 3.5). "
+                 "Second tie, by translation (DESIGN.md 3.5): on every run harness/lib/translate.py regenerates the LMDB key / record layout from "
+                 "kv.py's source (C01 C02 C04 C06-C12 C17; twelve tie theorems) and harness/lib/translate_validators.py the decision logic of "
+                 "validators.py + dynamic_lists.is_pubkey_allowed (C16), Authenticator.check_auth_event (C15), BaseSubscription.check_event "
+                 "(C05) and the interval table of RateLimiter.parse_option (C18); Lean proves each translation equal to the model. "
                  "known_findings.json lists genuine defects of the pinned tree (printed as KNOWN-FINDING).",
     }
     json.dump(m, open(os.path.join(VERIF, "MANIFEST.json"), "w"), indent=1)
